@@ -217,7 +217,7 @@ func (p *parser) expr(minPrec int) Expr {
 
 func (p *parser) unary() Expr {
 	t := p.peek()
-	if t.kind == "op" && (t.val == "!" || t.val == "-") {
+	if t.kind == "op" && (t.val == "!" || t.val == "-" || t.val == "*") {
 		p.next()
 		return &EUn{t.val, p.unary()}
 	}
@@ -236,6 +236,13 @@ func (p *parser) typeText() string {
 	}
 	if t.kind != "ident" {
 		panic(fmt.Sprintf("type expected at %d", t.pos))
+	}
+	if t.val == "gomap" {
+		p.expect("[")
+		k := p.typeText()
+		p.expect("]")
+		v := p.typeText()
+		return "gomap[" + k + "]" + v
 	}
 	if t.val == "map" || t.val == "set" {
 		p.expect("[")
@@ -418,4 +425,5 @@ type Contract struct {
 	Lets      []Binder // name, text (Type field holds expr text)
 	Extern    bool
 	Effects   []string
+	Site      bool
 }
